@@ -189,15 +189,20 @@ def aadOf (jwe : Json) : Option Bs :=
     some (match aad with | some a => p ++ [46] ++ B64.bytesOfString a | none => p)
   | _, _ => none
 
-/-- `zip` as the encryptor sees it (lib/misc.c): in the protected header, object or encoded;
-    `none` = the operation fails (unknown algorithm) -/
+/-- `zip` as the encryptor sees it (lib/jwe.c `jose_jwe_enc_cek_io`): looked up in the decoded protected
+    header; a protected header that is text but does not decode makes the operation fail (it is not read as
+    "no zip"); `none` = the operation fails (undecodable header, unknown algorithm) -/
 def zipOf (jwe : Json) : Option Bool :=
-  let prt : Option Json :=
-    match jwe.get? "protected" with
-    | some (.str s) => B64.decLoad (some (.str s))
-    | other => other
-  match prt.bind (·.getStr? "zip") with
-  | some z => if findComp z then some true else none
+  let flag (z : Option String) : Option Bool :=
+    match z with
+    | some z => if findComp z then some true else none
+    | none => some false
+  match jwe.get? "protected" with
+  | some (.str s) =>
+    (match B64.decLoad (some (.str s)) with
+     | none => none
+     | some prt => flag (prt.getStr? "zip"))
+  | some other => flag (other.getStr? "zip")
   | none => some false
 
 /-- content encryption proper: (ciphertext, tag) for key, iv, associated data, (compressed) plaintext -/
